@@ -54,6 +54,11 @@ PROP = {'drive': ['Cmapx'], 'harness_files': ['area_cmapx.go'], 'modules': ['Sfn
                            'freshly built maps because the result must not depend on Go map iteration order; maps with '
                            '0-3 entries, codes 0, 0xFFFF, 0x10000, 0x10FFFF); only Format12.CodeRange high and the key '
                            'choice have a Lean model (C09_install_keys)',
+                           'large BMP maps for format 4 (2621 blocks of 20 irregular codes, a 1200-long block at the point '
+                           'where idRangeOffset passes 65535, block counts around the limit): stream cmapx.big4 evaluates '
+                           '"Format4.Encode refuses (panics) or an independent OpenType format 4 lookup written in the '
+                           'harness reads the map back at all 65536 codes" on the real code; the Lean side only supplies '
+                           'the expected answer (the refusal itself is Model/Cmap4.lean pack = none)',
                            'uint32 wrap of offsets in Table.Encode and of the length in Format12.Encode '
                            '(outputs of 4 GiB) is modelled (mod 2^32 / panic) but cannot be exercised'],
  'assumptions': ['Format12: a Go map uint32->glyph.ID is its list of entries sorted by key (Map32: keys strictly '
